@@ -4,3 +4,4 @@ From Irismod Require Queues.CheckHtlc.
 From Irismod Require Queues.CheckRandom.
 From Irismod Require Queues.CheckFarm.
 From Irismod Require Queues.CheckService.
+From Irismod Require Queues.CheckAbci.
